@@ -83,7 +83,7 @@ class Definitions(Part):
 
 
 class EveryChar(Part):
-    """Every ASCII character (and a few others) alone and embedded, in DESC and in an extension value (enumerated)."""
+    """Every Latin-1 character and every boundary code point (gens.BOUNDARY_CHARS) alone and embedded, in DESC and in an extension value (enumerated)."""
 
     name = "every-char"
     exhaustive = True
